@@ -21,7 +21,7 @@ def main():
         for rnd in range(rounds):
             opened, _ = load_known("C10")
             known = [e["key"] for e in opened]
-            specs = [s for s in E.plan("C10", tier, rnd) if s["kind"] == "pairs"]
+            specs = [s for s in E.plan("C10", tier, rnd) if s["kind"] == "pairs" and (not os.environ.get("HARVEST_ISA") or s["isa"].endswith(tuple(os.environ["HARVEST_ISA"].split(","))))]
             for s in specs:
                 s.update({"prop": "C10", "tier": tier, "timeout": 900, "known_keys": known, "collect": True})
             rs = pool.map(specs, chunk=1)
